@@ -21,7 +21,8 @@ TRUSTED_BASE = [
     "gen/queryidioms.py: AST patterns of the three drop-list loops (which variable is appended), of the iterable of "
     "_drop_edges_not_of_type (live view / snapshot) and of the replacement test in get_nodes_on_path_with_hops",
     "Model/Query.lean mirrors get_first_neighbor, get_first_and_second_neighbor, get_nodes_on_shortest_path, "
-    "get_nodes_on_path_with_hops and the mixin helpers by hand; checked differentially",
+    "get_nodes_on_path_with_hops and the mixin helpers by hand; checked differentially. Names are compared by string equality in the model; "
+    "generators use the library's own CLASS_*/REL_* constants and containment-related names (A/AB, x/xx, '', Link/CompositeLink)",
     "networkx is third-party and modelled, not verified: nx.shortest_path by a layered BFS proved correct in Lean "
     "(results compared by validity + length only: which shortest path networkx returns is unspecified), "
     "nx.all_simple_paths(cutoff) by a DFS enumeration proved sound and complete, nx.cycle_basis(G.subgraph(path)) == [] by "
@@ -39,13 +40,54 @@ RULE = ("histories: several wrapper objects per graph id, query / mutate through
         "case = (store with 1-3 graphs built through add_node/add_link in interleaved order, target graph, query); queries: "
         "first-neighbour, two-hop, shortest path (with and without relation), path-with-hops (hop lists, cut-offs), derived helpers; "
         "non-trivial = the answer is non-empty or the queried node has incident edges of >= 2 relations; "
-        "distinct by (canonical target view, query); thorough adds every graph on <= 4 nodes over 2 relations x 2 classes "
+        "distinct by (canonical target view, query); thorough adds every graph on <= 4 nodes over 2 relations x 2 classes (names x/xx, A/AB; <= 3 nodes also with the empty string and Link/CompositeLink) "
         "up to isomorphism, and every graph on <= 3 nodes with self-loops, with all queries")
 
 ABS_REL = ["r", "s", "t"]
 ABS_CLS = ["A", "B", "C"]
 FIM_REL = ["has", "connects", "depends"]
 FIM_CLS = ["NetworkNode", "Component", "NetworkService", "ConnectionPoint", "Link"]
+# names related by containment / prefix / suffix, and the empty string: the contract compares names by equality, so any
+# text-containment test in the implementation (`in` on a str, startswith, a regex) shows as a difference
+SUB_REL = ["x", "xx", ""]
+SUB_CLS = ["A", "AB", ""]
+
+
+def real_alphabet():
+    """The class and relation constants the library itself defines (ABCPropertyGraphConstants): CLASS_* / REL_*.
+    `Link` is the tail of `CompositeLink`, `NetworkNode` / `CompositeNode` share `Node`, ..."""
+    try:
+        from fim.graph.abc_property_graph_constants import ABCPropertyGraphConstants as K
+        cl = [getattr(K, a) for a in sorted(dir(K)) if a.startswith("CLASS_") and isinstance(getattr(K, a), str)]
+        rl = [getattr(K, a) for a in sorted(dir(K)) if a.startswith("REL_") and isinstance(getattr(K, a), str)]
+    except Exception:
+        cl, rl = [], []
+    cl = list(dict.fromkeys(FIM_CLS + ["CompositeLink", "CompositeNode", "SwitchFabric"] + cl))
+    rl = list(dict.fromkeys(FIM_REL + rl))
+    return rl, cl
+
+
+def related_names(names):
+    """query-only names that are not in `names` but contain / are contained in / extend one of them"""
+    out = []
+    for x in names[:3]:
+        out += [x + x[-1:] if x else "q", x[:-1] if len(x) > 1 else x + "_", x[1:] if len(x) > 1 else "_" + x]
+    out += ["".join(names[:2]), ""]
+    return [y for y in dict.fromkeys(out) if y not in names]
+
+
+def pick_alphabet(rng):
+    """(relations, classes, fim-shaped?)"""
+    k = rng.random()
+    if k < 0.30:
+        rl, cl = real_alphabet()
+        return rl, cl, True
+    if k < 0.42:
+        # the containment-related subset of the real constants, on arbitrary shapes
+        return ["has", "connects", "depends"], ["Link", "CompositeLink", "NetworkNode", "CompositeNode", "Component"], False
+    if k < 0.70:
+        return (SUB_REL, SUB_CLS, False) if rng.random() < 0.6 else (SUB_REL[:2], SUB_CLS[:2], False)
+    return (ABS_REL, ABS_CLS, False) if rng.random() < 0.5 else (ABS_REL[:2], ABS_CLS[:2], False)
 
 
 # --------------------------------------------------------------------------
@@ -106,7 +148,8 @@ def gen_graph(rng, max_nodes, rels, clss, shape):
             k += 1
             nodes.append(("n%d" % k, c))
             return "n%d" % k
-        nn = [new("NetworkNode") for _ in range(rng.randint(1, 2))]
+        comp = "CompositeLink" in clss
+        nn = [new("CompositeNode" if comp and rng.random() < 0.3 else "NetworkNode") for _ in range(rng.randint(1, 2))]
         cps = []
         for x in nn:
             if len(nodes) >= max_nodes - 1:
@@ -123,7 +166,13 @@ def gen_graph(rng, max_nodes, rels, clss, shape):
                     links.append((ns, "connects", cp))
                     cps.append(cp)
         if cps and len(nodes) < max_nodes:
-            lk = new("Link")
+            lkc = "CompositeLink" if comp and rng.random() < 0.35 else "Link"
+            lk = new(lkc)
+            if comp and len(nodes) < max_nodes and rng.random() < 0.5:
+                lk2 = new("Link" if lkc == "CompositeLink" or rng.random() < 0.5 else "CompositeLink")
+                for cp in cps:
+                    if rng.random() < 0.5:
+                        links.append((lk2, "connects", cp))
             for cp in cps:
                 if rng.random() < 0.8:
                     links.append((lk, "connects", cp))
@@ -183,11 +232,8 @@ def foreign_ids(nodes, t):
 
 
 def gen_case(rng, max_nodes):
-    fim = rng.random() < 0.35
-    rels, clss = (FIM_REL, FIM_CLS) if fim else (ABS_REL, ABS_CLS)
-    if not fim and rng.random() < 0.5:
-        rels, clss = rels[:2], clss[:2]
-    shape = "fim" if fim and rng.random() < 0.7 else rng.choice(["sparse", "dense", "chain", "dense"])
+    rels, clss, fim = pick_alphabet(rng)
+    shape = "fim" if fim and rng.random() < 0.6 else rng.choice(["sparse", "dense", "chain", "dense"])
     graphs = [gen_graph(rng, max_nodes, rels, clss, shape)]
     for _ in range(rng.choice([0, 1, 1, 2])):
         # noise graphs reuse the same node ids (other classes / relations), so a missing GraphID filter shows
@@ -244,13 +290,25 @@ def all_queries(view, rels, clss, rng=None, budget=None, hops_full=False, other_
     ids = [i for i, _ in view.nodes]
     R = list(rels) + ["zz"]
     C = list(clss) + ["Zz"]
+    if budget is not None:
+        # query-only names related to the present ones by containment (sampled mode; the exhaustive family has them as present names)
+        R += related_names(list(rels))[:4]
+        C += related_names(list(clss))[:4]
+        if len(C) > 9:
+            rest = list(clss)[5:]
+            C = list(clss)[:5] + rng.sample(rest, min(2, len(rest))) + C[len(clss):]
     N = ids + ["nope"]
     qs = []
     for n in N:
         for r in R:
             for c in C:
                 qs.append(["fn", n, r, c])
-    two = [["two", n, r1, c1, r2, c2] for n in N for r1 in rels for c1 in clss for r2 in rels for c2 in clss]
+    if budget is not None:
+        two = [["two", rng.choice(N), rng.choice(R), rng.choice(C), rng.choice(R), rng.choice(C)] for _ in range(budget)]
+        # mostly names that occur in the graph
+        two += [["two", n, rng.choice(rels), rng.choice(clss), rng.choice(rels), rng.choice(clss)] for n in ids for _ in range(12)]
+    else:
+        two = [["two", n, r1, c1, r2, c2] for n in N for r1 in rels for c1 in clss for r2 in rels for c2 in clss]
     sp = [["sp", a, z, r] for a in N for z in N for r in [None] + R]
     hops = []
     pairs2 = [[a, b] for a, b in itertools.combinations(ids, 2)]
@@ -279,7 +337,7 @@ def all_queries(view, rels, clss, rng=None, budget=None, hops_full=False, other_
     helpers = []
     for n, c in view.nodes:
         for r in rels[:2]:
-            for pc in clss:
+            for pc in (clss if len(clss) <= 5 else list(clss)[:4] + [c]):
                 helpers.append(["parent", n, r, pc])
         if c == "ConnectionPoint":
             helpers.append(["peer", n])
@@ -318,7 +376,17 @@ def iso_canonical(n, edges, classes, loops=None):
     return True
 
 
-def exhaustive_cases(max_n=4, loops_n=3, rels=("r", "s"), clss=("A", "B")):
+def exhaustive_cases(max_n=4, loops_n=3, rels=("x", "xx"), clss=("A", "AB"), empty_n=3):
+    """Containment-related names (x / xx, A / AB) are the alphabet of the main family - isomorphic to any other two-name
+    alphabet for an implementation that compares by equality; graphs on <= empty_n nodes are repeated with the empty
+    string as a relation and as a class, and with the real constants Link / CompositeLink."""
+    yield from exhaustive_family(max_n, loops_n, rels, clss)
+    if empty_n:
+        yield from exhaustive_family(empty_n, 0, ("", "x"), ("", "A"))
+        yield from exhaustive_family(empty_n, 0, ("connects", "has"), ("Link", "CompositeLink"))
+
+
+def exhaustive_family(max_n, loops_n, rels, clss):
     """Every graph on <= max_n nodes over the given relations x classes, up to isomorphism; then every graph on
     <= loops_n nodes that has at least one self-loop.  A second graph with the same ids and swapped relations shares the store."""
     swap = {rels[0]: rels[1], rels[1]: rels[0]}
@@ -550,12 +618,18 @@ def run_cases(ctx, res, cases, budget, tag, hops_full=False, judge=False):
 
 
 def corner_cases():
-    def mk(graphs):
+    def mk(graphs, alphabet=None):
         import random
         c = make_case(random.Random(0), graphs)
-        c["alphabet"] = [ABS_REL[:2], ABS_CLS[:2]]
+        c["alphabet"] = alphabet or [ABS_REL[:2], ABS_CLS[:2]]
         return c
     return [
+        # names that contain one another: a query for CompositeLink must not return Link nodes (nor the reverse), '' is a name
+        mk([([("a", "ConnectionPoint"), ("b", "Link"), ("c", "CompositeLink"), ("d", "ConnectionPoint"), ("e", "")],
+             [("a", "connects", "b"), ("a", "connects", "c"), ("b", "connects", "d"), ("c", "connect", "d"), ("a", "", "e"), ("e", "connects", "d")])],
+           [["connects", "connect", ""], ["Link", "CompositeLink", "ConnectionPoint", "", "Composite"]]),
+        mk([([("a", "A"), ("b", "AB"), ("c", ""), ("d", "A")], [("a", "x", "b"), ("a", "xx", "c"), ("a", "", "d"), ("b", "xx", "d"), ("c", "x", "d")])],
+           [SUB_REL, SUB_CLS]),
         mk([([("a", "A"), ("b", "B"), ("c", "A"), ("d", "B")], [("a", "r", "b"), ("b", "s", "c"), ("c", "r", "d")])]),
         mk([([("a", "A")], [])]),
         mk([([("a", "A"), ("b", "B")], [("a", "r", "b"), ("b", "s", "a")]), ([("a", "B"), ("b", "A")], [("a", "s", "b")])]),
@@ -806,8 +880,7 @@ def apply_step(mvs, wrappers, st):
 
 
 def gen_history(rng, max_nodes):
-    fim = rng.random() < 0.3
-    rels, clss = (FIM_REL, FIM_CLS) if fim else (ABS_REL[:2], ABS_CLS[:2]) if rng.random() < 0.6 else (ABS_REL, ABS_CLS)
+    rels, clss, fim = pick_alphabet(rng)
     ng = rng.choice([1, 2, 2, 3])
     graphs = ["h%d" % i for i in range(ng)]
     # two or three wrapper objects for graph 0, one or two for the others
@@ -1099,7 +1172,7 @@ def oracle(ctx, res, n=None, budget=None, hist_n=None):
 
 def search(ctx, res, broken):
     oracle_cases(ctx, res, corpus_cases(), None, "corpus")
-    oracle_cases(ctx, res, exhaustive_cases(max_n=ctx.scale(3, 4), loops_n=ctx.scale(2, 3)), None, "exhaustive", hops_full=True)
+    oracle_cases(ctx, res, exhaustive_cases(max_n=ctx.scale(3, 4), loops_n=ctx.scale(2, 3), empty_n=ctx.scale(2, 3)), None, "exhaustive", hops_full=True)
     if not res.violations:
         oracle(ctx, res, n=ctx.scale(1500, 8000), budget=300, hist_n=ctx.scale(2000, 10000))
 
